@@ -800,11 +800,20 @@ def _relative_frequency(ctx, rule):
     return c06.r1_relative_frequency(ctx, rule)
 
 
+def _shared_rule(mod, name, **kw):
+    def run(ctx, rule):
+        import importlib
+        return getattr(importlib.import_module('sa.props.' + mod), name)(ctx, rule, **kw)
+    return run
+
+
 def rules(tier):
     return [('C03.R1', r1_tag_chain), ('C03.R2', lambda c, r: r2_mask_producer(c, r, lower_only=False)), ('C03.R3', r3_mask_insertion),
             ('C03.R4', lambda c, r: c04.r3_mask_slices(c, r, strict_char_map=False)), ('C03.R5', c04.r2_structural_recursion), ('C03.R6', c04.r1_dispatch),
             ('C03.R7', c01.r8_uniform_scale), ('C03.R8', _renorm),
-            ('C03.R9', r9_counted_value_is_segment), ('C03.R10', c01.r4_prob_pt_coupling), ('C03.R11', _adoption), ('C03.R12', _separators), ('C03.R13', c01.r11_sections_not_aliased), ('C03.R14', _reader_rewrites), ('C03.R15', _all_items_written), ('C03.R16', _relative_frequency)] + _loader_bundle() + _segmentation_bundle() + []
+            ('C03.R9', r9_counted_value_is_segment), ('C03.R10', c01.r4_prob_pt_coupling), ('C03.R11', _adoption), ('C03.R12', _separators), ('C03.R13', c01.r11_sections_not_aliased), ('C03.R14', _reader_rewrites), ('C03.R15', _all_items_written), ('C03.R16', _relative_frequency),
+            # C03-ca: the pass that feeds the parser reads the training file without --prefixcount
+            ('C03.R17', _shared_rule('c19', 'r1_three_passes'))] + _loader_bundle() + _segmentation_bundle() + []
 
 
 META = {
